@@ -5,6 +5,7 @@ import (
 	"context"
 	"fmt"
 	"runtime/debug"
+	"time"
 	"sort"
 	"strings"
 
@@ -149,7 +150,7 @@ func (r *runner) applyBlock(txs [][]byte) (errs []lib.ErrorI, senders [][]byte, 
 			}
 			fi++
 		default:
-			panic("c05: transaction neither included nor failed")
+			errs[i] = lib.ErrPanic() // neither included nor failed: reported by the callers' oracles as a failed valid / unexplained transaction
 		}
 	}
 	return
@@ -168,7 +169,7 @@ func (r *runner) batch(bz []byte) outcome {
 		errs, senders, berr := r.applyBlock(txs)
 		if berr != nil {
 			oc.err = berr
-			oc.note = "ApplyTransactions refused the whole block: " + errStr(berr)
+			r.honestBlockRefused("candidate, seven valid ed25519 sends, one ed25519 send with a bad signature", berr, txs)
 			return
 		}
 		oc.err, oc.sender = errs[0], senders[0]
@@ -218,18 +219,19 @@ func (r *runner) prepareBatch() {
 	w.inTxn(func() {
 		txs := append(append([][]byte{}, r.fill...), r.bad)
 		errs, _, berr := r.applyBlock(txs)
+		r.bbase = w.scan()
 		if berr != nil {
-			panic("c05: baseline batch refused: " + errStr(berr))
+			r.honestBlockRefused("baseline: seven valid ed25519 sends and one with a bad signature", berr, txs)
+			return
 		}
 		for i := range r.fill {
 			if errs[i] != nil {
-				panic("c05: baseline filler failed: " + errStr(errs[i]))
+				r.fail("C05:valid-tx-rejected:batch", fmt.Sprintf("%s: baseline block: valid ed25519 send %d failed with %s", r.o.CurCase(), i, errStr(errs[i])), map[string]any{"block": hexAll(txs)})
 			}
 		}
 		if errs[len(txs)-1] == nil {
-			panic("c05: baseline bad signature accepted")
+			r.fail("C05:invalid-signature-accepted:send", r.o.CurCase()+": baseline block: the ed25519 send with a bad signature was executed", map[string]any{"block": hexAll(txs)})
 		}
-		r.bbase = w.scan()
 	})
 }
 
@@ -617,6 +619,7 @@ func (r *runner) signers(variant string) []signerSpec {
 }
 
 func (r *runner) runCase(variant string) {
+	defer timed("cases")()
 	w := r.w
 	name := r.mode + "/" + r.kind
 	if variant != "" {
@@ -736,6 +739,10 @@ func Run(o *drv.Out) {
 	o.Extra["constructors_cross_checked"] = "kind-specific constructors of fsm/transaction.go yield the same message and envelope as the harness for every single-key scheme"
 	fails := map[string]bool{}
 	seen := map[string]bool{}
+	// (first, so that a forgery that executes is the first failure reported) blocks mixing transactions that fail before / after their signature is queued with forgeries and valid ones
+	for i, sc := range schemes {
+		(&runner{o: o, w: w, sc: sc, mode: sc, kind: fsm.MessageSendName, seen: seen, fails: fails}).runMixed(i)
+	}
 	for _, mode := range modes {
 		for _, kind := range kinds {
 			if (mode == "rlp" || mode == "rlp2") && !rlpSupports(kind) {
@@ -775,6 +782,11 @@ func Run(o *drv.Out) {
 		r.runCase("proposals-rejected")
 	}
 	w.sm.SetProposalVoteConfig(fsm.AcceptAllProposals)
+	secs := map[string]float64{}
+	for k, v := range phaseTimes {
+		secs[k] = v.Seconds()
+	}
+	o.Extra["driver_seconds_by_family"] = secs
 }
 
 // runOpenMultisig: sends from the funded address of own's member set with threshold 0.
@@ -784,6 +796,7 @@ func Run(o *drv.Out) {
 // EMPTY subset with the identity of G2 as signature verified too — nobody's key involved — and must
 // now be refused on all three paths, for threshold 0 and for own's real threshold.
 func (r *runner) runOpenMultisig() {
+	defer timed("open-multisig")()
 	w := r.w
 	r.o.Case("multi/send/threshold-0-account")
 	r.f, r.sent, r.decl = &facts{}, 0, map[string]bool{}
@@ -824,6 +837,7 @@ func (r *runner) runOpenMultisig() {
 // verifier) and authorization again against the current state when it executes it (phase 3, no-op
 // verifier). So the old output address passes phase 1 but must fail phase 3; the new one fails phase 1.
 func (r *runner) runMidBlock() {
+	defer timed("mid-block")()
 	w := r.w
 	P := w.P[r.sc]
 	r.o.Case(r.sc + "/block/output-redirected-mid-block")
@@ -849,15 +863,22 @@ func (r *runner) runMidBlock() {
 		var errs []lib.ErrorI
 		var senders [][]byte
 		var post *snap
+		var refused lib.ErrorI
 		w.inTxn(func() {
 			all := append(append(append([][]byte{}, bzs...), r.fill...), r.bad)
 			var berr lib.ErrorI
 			errs, senders, berr = r.applyBlock(all)
 			if berr != nil {
-				panic("c05: mid-block scenario refused: " + errStr(berr))
+				refused = berr
+				return
 			}
 			post = w.scan()
 		})
+		if refused != nil {
+			// the unchanged code accepts this block (one transaction executes, two are marked failed)
+			r.honestBlockRefused("output-redirected-mid-block", refused, append(append(append([][]byte{}, bzs...), r.fill...), r.bad))
+			return
+		}
 		d := diffSnaps(r.bbase, post)
 		line := func(i int) string {
 			if errs[i] != nil {
@@ -904,4 +925,27 @@ func (r *runner) runMidBlock() {
 			r.fail("C05:unauthorized-state-change:editStake", r.o.CurCase()+": unexpected validator changes after the block: "+d.line(), replay)
 		}
 	})
+}
+
+func hexAll(txs [][]byte) []string {
+	var out []string
+	for _, t := range txs {
+		out = append(out, drv.Hex(t))
+	}
+	return out
+}
+
+// honestBlockRefused: ApplyTransactions returned an error for a whole block that the unchanged code
+// processes (executing the valid transactions and marking the others failed).
+func (r *runner) honestBlockRefused(what string, e lib.ErrorI, block [][]byte) {
+	code := fmt.Sprintf("%s/%d", e.Module(), e.Code())
+	r.fail("C05:honest-block-refused:"+code, fmt.Sprintf("%s: ApplyTransactions refused the whole block (%s) with %s", r.o.CurCase(), what, errStr(e)),
+		map[string]any{"case": r.o.CurCase(), "block": hexAll(block), "path": "batch"})
+}
+
+var phaseTimes = map[string]time.Duration{}
+
+func timed(name string) func() {
+	t := time.Now()
+	return func() { phaseTimes[name] += time.Since(t) }
 }
